@@ -306,6 +306,9 @@ def rule_persist(ctx, classes=SKETCH_CLASSES):
             ctx.ob("persist-table", save, save.node, "np.savez(...)", "save writes an npz archive", None, "no np.savez call")
             continue
         written = {kw.arg: kw.value for kw in sz.keywords if kw.arg}
+        for k_, v_ in list(written.items()):
+            if isinstance(v_, ast.Name):       # `args = np.array([...]); np.savez(f, args=args)`
+                written[k_] = resolve_temps(save.node, v_, allow_subscript=True, pure_only=False, in_loops=False, loose=True)
         li = parse_loader(F, load)
         if load.cls is not cls:
             ctx.ob("persist-table", (cls.module.relpath, cls.name), cls.node, "%s.load inherited from %s" % (cls.name, load.cls.name),
@@ -623,7 +626,8 @@ def rule_reader_api(ctx):
         readers = [e for e in calls if (e.name or "") in READERS_OK]
         deleg = [e for e in calls if (e.name or "").endswith(".load") and isinstance(e.node.func, ast.Attribute) and (e.name or "") not in READERS_OK]
         others = [e for e in calls if e not in readers and e not in deleg and any(derived(a) or same_file(a) for a in list(e.args) + list((e.kwargs or {}).values()))]
-        if not readers and not deleg:
+        helper_reads = [e for e in others if isinstance(e.node.func, ast.Name) and ctx.model.lookup_func(f.module, e.node.func.id) is not None]
+        if not readers and not deleg and not helper_reads:
             ctx.ob("reader-api", f, f.node, "%s(%s)" % (f.qualname, fname), "the loader reads the file", None, "no np.load / class loader call found")
         for g in group_by_node(readers):
             res = []
@@ -665,6 +669,25 @@ def rule_reader_api(ctx):
                 ctx.ob("reader-api", f, e.node, unparse(e.node, 60), "only metadata of the file is inspected", True)
             elif isinstance(e.node.func, ast.Name) and ctx.model.lookup_class(f.module, e.node.func.id):
                 continue       # constructor fed from the archive's members
+            elif isinstance(e.node.func, ast.Name) and ctx.model.lookup_func(f.module, e.node.func.id) is not None:
+                # a helper of the package that is handed the file: memoised, it answers a later load of the same path from memory
+                # and never opens the (meanwhile truncated) file
+                h = ctx.model.lookup_func(f.module, e.node.func.id)
+                decos = [(dotted(dd.func) if isinstance(dd, ast.Call) else dotted(dd)) or "" for dd in h.node.decorator_list]
+                cached = [x for x in decos if x.split(".")[-1] in ("lru_cache", "cache", "cached", "memoize")]
+                reads = any(isinstance(x, ast.Call) and (dotted(x.func) or "") in READERS_OK for x in ast.walk(h.node))
+                if cached:
+                    ctx.ob("reader-api", f, e.node, unparse(e.node, 60), "every load opens the file it is given", False,
+                           "%s is memoised (@%s) on the file name: after one good load of a path, a truncated file at that path is "
+                           "answered from memory instead of being rejected" % (h.name, cached[0]))
+                elif reads:
+                    ok_with = any(isinstance(wn, ast.With) and any(isinstance(it.context_expr, ast.Call) and (dotted(it.context_expr.func) or "") in READERS_OK
+                                                                   and it.context_expr.args and isinstance(it.context_expr.args[0], ast.Name)
+                                                                   and it.context_expr.args[0].id in h.params for it in wn.items)
+                                  for wn in walk_no_nested(h.node))
+                    ctx.ob("reader-api", f, e.node, unparse(e.node, 60), "the helper reads the file it is given through `with np.load(<its parameter>)`",
+                           True if ok_with else None, "" if ok_with else "the helper's way of reading the file is not recognised")
+                continue
             else:
                 # something computed from the file name that is not handed to a reader is harmless; if it reaches a reader, the
                 # reader's own obligation reports it
@@ -911,8 +934,28 @@ class LayoutInterp:
             if a:
                 if ("@" + a) in env:
                     return env["@" + a]
+                if a in self.inmem:
+                    return ("table", a)         # one of the sketch's arrays (its size and dtype are the in-memory allocation's)
                 return Poly.sym(a)              # self.width == width (rule ctor-attr)
             base = self.ev(n.value, env)
+            if isinstance(base, tuple) and base and base[0] == "table":
+                dt, dims = self.inmem[base[1]]
+                if n.attr == "nbytes":
+                    p_ = Poly.const(ITEMSIZE[dt.bits])
+                    for d_ in dims:
+                        p_ = p_ * d_
+                    return p_
+                if n.attr == "dtype":
+                    return ("dtype", dt)
+                if n.attr == "shape":
+                    return tuple(dims)
+                if n.attr == "size":
+                    p_ = Poly.const(1)
+                    for d_ in dims:
+                        p_ = p_ * d_
+                    return p_
+                if n.attr == "itemsize":
+                    return Poly.const(ITEMSIZE[dt.bits])
             if n.attr == "buf" and isinstance(base, tuple) and base and base[0] == "shm":
                 return ("buf", base[1] + ".buf")
             if n.attr == "nbytes":
@@ -1812,6 +1855,18 @@ def _deleg_loops(ctx, F, m, callee, goal, want_dispatch, extra_args=()):
             c = inbody[0].node
             got = [unparse(resolve_temps(m.node, a_)) for a_ in c.args]
             okk = got == exp and not c.keywords
+            if okk:
+                # the names really denote the loop's element and the method's own argument: neither is rebound anywhere in the method
+                # (`ngram = min(ngram, len(key))` inside the loop carries the clamp over to the later elements)
+                stores = {}
+                loop_targets = {id(t_) for f_ in walk_no_nested(m.node) if isinstance(f_, ast.For) for t_ in ast.walk(f_.target)}
+                for n_ in walk_no_nested(m.node):
+                    if isinstance(n_, ast.Name) and isinstance(n_.ctx, (ast.Store, ast.Del)) and id(n_) not in loop_targets:
+                        stores[n_.id] = stores.get(n_.id, 0) + 1
+                rebound = [nm for nm in exp if stores.get(nm, 0) != 0]
+                if rebound:
+                    res.append((False, "`%s` is rebound inside %s: what is passed on is not the caller's argument / the element itself" % (rebound[0], m.qualname), fact_strs(le)))
+                    continue
             res.append((okk, "self.%s(%s) per element" % (callee, ", ".join(exp)) if okk else
                         "each element is passed on as `%s`, not self.%s(%s)" % (unparse(c, 60), callee, ", ".join(exp)), fact_strs(le)))
         broken = [n for b_ in x.node.body for n in walk_no_nested(b_) if isinstance(n, (ast.Break, ast.Continue, ast.Return))]
